@@ -189,3 +189,90 @@ def c15(ctx):
                        "no coverage-guided fuzzing: streams are well-formed, truncated at every offset, mutated, random, huge-length and error-injected"]
     return M.finish(ctx, rule="one trace = one byte stream fed to a real Conn (with a real webtransport.Session over the fake HTTP/3 layer when a "
                     "read limit is set) and consumed with one of 4 patterns x 3 fragmentations", evs=evs)
+
+
+# ----------------------------------------------------------------------- C20
+CM_CFG = "SPECIFICATION Spec\nCONSTANTS Vals = {0, 1, 2} MaxLen = %d MaxOps = %d\nVIEW view\nINVARIANTS %s\nCHECK_DEADLOCK FALSE\n"
+LIN_CFG = 'SPECIFICATION Spec\nCONSTANT TraceFile = "trace.ndjson"\nCONSTRAINT HighWater\nPOSTCONDITION Report\nCHECK_DEADLOCK FALSE\n'
+
+
+def lin_validate(ctx, trace_path, name):
+    """TLC linearization search over a file of concurrent histories. Returns list of non-linearizable scenarios."""
+    bad = []
+    evs = M.read_trace(trace_path)
+    for attempt in range(6):
+        d = M.tlc_dir(ctx, "lin_%s_%d" % (name, attempt))
+        with open(os.path.join(d, "trace.ndjson"), "w") as f:
+            for e in evs:
+                f.write(json.dumps(e) + "\n")
+        M.write_cfg(d, "lin", LIN_CFG)
+        rc, out = M.sh(["tlc", "-workers", "1", "-metadir", os.path.join(d, "meta"), "-config", "lin.cfg", "ContLin.tla"], cwd=d,
+                       timeout=1200, env={"JAVA_TOOL_OPTIONS": "-Dtlc2.tool.queue.IStateQueue=StateDeque -Xss512m"})
+        import re
+        m = re.search(r'HIGHWATER (\d+) OF (\d+)', out)
+        r = M.parse_tlc(out)
+        if not m:
+            raise M.Inconclusive("linearization search did not finish (%s)" % d)
+        ctx.extra["lin_states"] = ctx.extra.get("lin_states", 0) + r["distinct"]
+        hw, tot = int(m.group(1)), int(m.group(2))
+        if hw >= tot:
+            return bad
+        # the history containing line hw cannot be explained: report it, drop it, validate the rest
+        scn, start, end = None, 0, len(evs)
+        for i, e in enumerate(evs):
+            if e["e"] == "reset":
+                if i < hw:
+                    scn, start = e["scn"], i
+                elif end == len(evs):
+                    end = i
+        bad.append({"scn": scn, "clause": "not_linearizable", "line": hw, "detail": evs[hw - 1] if hw - 1 < len(evs) else None})
+        evs = evs[:start] + evs[end:]
+    return bad  # many histories cannot be explained: report what was found
+
+
+@prop("C20")
+def c20(ctx):
+    q = ctx.quick
+    M.tlc_model(ctx, "ContModel", CM_CFG % (4, 3, "TypeOK Laws"), "slice_ref")
+    behs = M.tlc_simulate(ctx, "ContModel", CM_CFG % (5, 8, "Emit"), "slice_sim", num=3 if q else 30, depth=10, seed=ctx.seed,
+                          cap=400 if q else 6000)
+    ctx.extra["behaviours_replayed"] = len(behs)
+    trace, summ = M.go_family(ctx, "cont", behaviours=behs, nrandom=60 if q else 800)
+    viols, lines = M.tlc_trace(ctx, "ContMon", 'SPECIFICATION Spec\nCONSTANT TraceFile = "trace.ndjson"\nCHECK_DEADLOCK FALSE\n', "cont", trace)
+    evs = M.read_trace(trace)
+    ctx.traces += summ.get("stats", {}).get("scenarios", 0)
+    ctx.events += lines
+    ltrace, lsumm = M.go_family(ctx, "lin", nrandom=60 if q else 700)
+    bad = lin_validate(ctx, ltrace, "lin")
+    levs = M.read_trace(ltrace)
+    nlin = lsumm.get("stats", {}).get("scenarios", 0)
+    ctx.traces += nlin
+    ctx.events += len(levs)
+    ctx.extra["concurrent_histories"] = nlin
+    ctx.extra["concurrent_operations"] = sum(1 for e in levs if e["e"] == "inv")
+    for v in viols:
+        v["sig"] = c20_sig(v)
+    M.classify(ctx, viols + bad)
+    scns = [e["scn"] for e in evs if e["e"] == "reset"]
+    ctx.samples = [{"tlc_behaviour": behs[0] if behs else None}, sample_trace(evs, scns[0], 8), sample_trace(levs, levs[0]["scn"], 14)]
+    ctx.assumptions = ["Map.Len/Keys/Values/Range are excluded from concurrent histories (sync.Map's Range is documented not to be a snapshot); they are checked sequentially",
+                       "the order in which RemoveListener picks among several registrations of the SAME function is left open (only counts and call multisets are checked then)",
+                       "nested Emit of the same event from inside a listener is outside the contract",
+                       "a listener is identified by its code pointer, as the implementation does (distinct function literals are used)"]
+    return M.finish(ctx, rule="sequential: one trace = one script on a fresh container, every result compared by TLC with Containers.tla; "
+                    "concurrent: one trace = one inv/ret history of 2-8 goroutines, accepted iff TLC finds a linearization",
+                    evs=evs + levs)
+
+
+def c20_sig(v):
+    d = v.get("detail")
+    c = v.get("clause")
+    if c == "panic" and isinstance(d, dict):
+        return "panic:" + str(d.get("op"))
+    if c == "slice_alias" and isinstance(d, dict):
+        return "alias:" + str(d.get("o", {}).get("op"))
+    if c in ("listener_count", "emitter_result", "emit_calls") and isinstance(d, dict):
+        return c + (":dup" if d.get("dup") else "")
+    if c == "duplicate_ids" and isinstance(d, dict):
+        return "dups:%s:%s" % (d.get("kind"), "concurrent" if d.get("goroutines", 1) > 1 else "sequential")
+    return c
